@@ -270,6 +270,10 @@ pub fn run_pipeline(
         // above.
         if !capture {
             cmd_result = _cr;
+        } else {
+            // the output has been collected already; the status is the
+            // one the wait reports
+            cmd_result.status = _cr.status;
         }
     }
     (term_given, cmd_result)
